@@ -30,6 +30,7 @@ import QV.Lemmas.CplxGrad
 import QV.Lemmas.Grouping
 import QV.Lemmas.DMGrad
 import QV.Lemmas.GradArgs
+import Mathlib.Analysis.SpecialFunctions.Log.ENNRealLog
 import QV.Props.C01
 import QV.Props.C02
 import QV.Props.C04
@@ -1059,6 +1060,35 @@ example : ([[false, true], [true, true]].map (fun l => fun (j : Fin 2) => l.getD
     ∧ (∀ b ∈ (["XZ".toList, "ZY".toList] : List (List Char)), ∀ c ∈ b, c = 'Z' ∨ c ∈ ['X', 'Y', 'Z']) := by
   refine ⟨by simp, by simp, by decide, by decide⟩
 
+/-- **C03.9 (zero rotated amplitude, coverage-map item 9)** `ComplexWaveFunction.rotated_gradient` divides by the rotated
+amplitude `Upsi` with no regulariser (`cplx.inverse(Upsi)`); `C03_sample_gradient_complex` carries `Upsi ≠ 0`. That guard
+excludes EXACTLY the samples on which the loss itself is undefined: `Upsi = 0` iff the Born probability of the sample's
+outcome in its own basis (dense Kronecker rotation, C04) is zero iff its negative log-likelihood term, computed in the
+extended reals, is `+∞`. At such a point the REAL-number model returns `0` for every component (`x / 0 = 0`), the code and
+the Float model `nan` (`0/0`; counted by the harness probe `zero-amplitude`): no finite gradient exists there. -/
+theorem C03_zero_amplitude_iff_infinite_nll (am ph : RBM ℝ n h) (dict : Char → M2 ℝ) (smp : Sample n)
+    (hZ : m2c (dict 'Z') = 1) :
+    (toC (cplxUpsi am ph dict smp) = 0 ↔ bornPsi (usOf dict smp) (psiOf am ph) smp.σ = 0)
+    ∧ (bornPsi (usOf dict smp) (psiOf am ph) smp.σ = 0
+        ↔ -(ENNReal.log (ENNReal.ofReal (bornPsi (usOf dict smp) (psiOf am ph) smp.σ))) = (⊤ : EReal))
+    ∧ (toC (cplxUpsi am ph dict smp) = 0 →
+        ∀ (isPhase : Bool) (g : (Fin n → Bool) → ℝ), cplxRotComp am ph dict smp isPhase g = 0) := by
+  refine ⟨?_, ?_, ?_⟩
+  · unfold bornPsi
+    rw [← C03_upsi_is_dense_amplitude am ph dict smp hZ, Complex.normSq_eq_zero]
+  · rw [EReal.neg_eq_top_iff, ENNReal.log_eq_bot_iff, ENNReal.ofReal_eq_zero]
+    have h0 : 0 ≤ bornPsi (usOf dict smp) (psiOf am ph) smp.σ := Complex.normSq_nonneg _
+    constructor
+    · intro h; rw [h]
+    · intro h; exact le_antisymm h h0
+  · intro hU isPhase g
+    have hU0 : cplxUpsi am ph dict smp = (0, 0) := by
+      by_contra hne
+      exact ((C.ne_zero_iff _).1 hne) hU
+    unfold cplxRotComp
+    rw [hU0, C.invH_zero]
+    simp [C.inv, C.mul, C.conj, C.normSq]
+
 /-- **C03.10a (batch layout of `gamma_grad`)** the tensor `PurificationRBM.gamma_grad(v, vp, eta, expand)` returns
 (`gammaGradT`: `unsqueezed`, `batch_sizes`, the `.view(*batch_sizes, -1)` index arithmetic `q ↦ [q / n, q % n]`, the offsets
 of `torch.cat([W, U, b, c, d], -1)`, the squeeze) holds, at `[i, j, :]` (`expand=True`, shape `(B, B', P)`) resp. `[i, :]`
@@ -1102,8 +1132,11 @@ theorem C03_pi_grad_layout (am ph : PRBM ℝ n h a) (phase : Bool) (v vp : RowsA
           ∧ t.1.shape = [h * n + a * n + n + h + a] ∧ t.2.shape = [h * n + a * n + n + h + a]
           ∧ ∀ q, t.1.get [q] = (piGradNoExpand am ph phase (v.row 0) (vp.row 0)).1.flatten.getD q 0
               ∧ t.2.get [q] = (piGradNoExpand am ph phase (v.row 0) (vp.row 0)).2.flatten.getD q 0)
-    ∧ (vp.B ≠ v.B → vp.B ≠ 1 → ∃ e, piGradT am ph phase false v vp = .error e) := by
-  refine ⟨?_, ?_, ?_, ?_⟩
+    ∧ (vp.B ≠ v.B → vp.B ≠ 1 → (phase = false ∨ v.B ≠ 1) → ∃ e, piGradT am ph phase false v vp = .error e)
+    ∧ (vp.B ≠ 1 → v.B = 1 → ∃ t, piGradT am ph true false v vp = .ok t
+        ∧ t.1.shape = (if (v.isOne || vp.isOne) = true then [h * n + vp.B * (a * n) + n + h + a]
+            else [1, h * n + vp.B * (a * n) + n + h + a])) := by
+  refine ⟨?_, ?_, ?_, ?_, ?_⟩
   · obtain ⟨t1, h1, s1, g1⟩ := layoutT_expand v vp (fun i j => (piGrad am ph phase (v.row i) (vp.row j)).1)
     obtain ⟨t2, h2, s2, g2⟩ := layoutT_expand v vp (fun i j => (piGrad am ph phase (v.row i) (vp.row j)).2)
     exact ⟨(t1, t2), by simp only [piGradT, if_true, h1, h2], s1, s2, fun i j q => ⟨g1 i j q, g2 i j q⟩⟩
@@ -1116,8 +1149,20 @@ theorem C03_pi_grad_layout (am ph : PRBM ℝ n h a) (phase : Bool) (v vp : RowsA
     obtain ⟨t1, h1, s1, g1⟩ := layoutT_1d v vp (fun i j => (piGradNoExpand am ph phase (v.row i) (vp.row j)).1) hu hB hBp
     obtain ⟨t2, h2, s2, g2⟩ := layoutT_1d v vp (fun i j => (piGradNoExpand am ph phase (v.row i) (vp.row j)).2) hu hB hBp
     exact ⟨(t1, t2), by simp only [piGradT, Bool.false_eq_true, if_false, h1, h2], s1, s2, fun q => ⟨g1 q, g2 q⟩⟩
-  · intro h1 h2
-    exact ⟨.RuntimeError, by simp only [piGradT, Bool.false_eq_true, if_false, layoutT_refused v vp _ h1 h2]⟩
+  · intro h1 h2 h3
+    refine ⟨.RuntimeError, ?_⟩
+    have hc : (phase && v.B == 1) = false := by
+      rcases h3 with h3 | h3
+      · simp [h3]
+      · simp [h3]
+    simp only [piGradT, Bool.false_eq_true, if_false, layoutT_refused v vp _ h1 h2, hc]
+  · intro h2 hB
+    have h1 : vp.B ≠ v.B := by rw [hB]; exact h2
+    refine ⟨_, by simp only [piGradT, Bool.false_eq_true, if_false, layoutT_refused v vp _ h1 h2, hB, Bool.true_and,
+      beq_self_eq_true, if_true]; rfl, ?_⟩
+    by_cases hu : (v.isOne || vp.isOne) = true
+    · simp [piGradOddT, hu, FT.squeeze0]
+    · simp [piGradOddT, hu]
 
 /-- satisfiable: `B = 2`, `B' = 3` rows on two sites (expand), and two 2-row batches (paired) -/
 example : ∃ v vp : RowsArg ℝ 2, v.B = 2 ∧ vp.B = 3 ∧ v.batch = some 2 :=
